@@ -426,7 +426,9 @@ class Family(dbmc.Harness):
                     and v.job_by_id[j]['attempt_id'] == a['attempt_id'] and (self.tier != 'quick' or v.job_by_id[j]['state'] in TERMINAL):
                 # the worker posts job_started from a background task with retries: it can be handled after job_complete
                 out.append(('started', j, a['attempt_id'], inst, 10))
-            for s in ('Success', 'Failed'):
+            # 'Error' (worker-side failure, e.g. image pull): a third terminal state with its own spelling in every state list
+            outcomes = ('Success', 'Failed', 'Error') if (self.tier != 'quick' or j == v.jobs[0]['job_id']) else ('Success', 'Failed')
+            for s in outcomes:
                 # a worker reports the outcome of an attempt until the driver acknowledges it, then never again;
                 # further copies (dup_reports) model retries after a lost response
                 if self.opts.get('dup_reports', True) or (a['end_time'] is None and (j, a['attempt_id']) not in getattr(w, 'reported', ())):
